@@ -140,6 +140,8 @@ func runC12(rep *vh.Report, r *vh.Rng, n int, thorough bool) {
 	for _, v := range intBoundaries {
 		c12MysqlIntOne(w, r, fmt.Sprintf("table int=%d", v), v)
 	}
+	// structured malformed extended-query messages (Bind / Parse / Execute / descriptions), every run
+	c12ExtendedTables(w, thorough)
 	if thorough {
 		c12Huge(w, r)
 	}
@@ -650,8 +652,10 @@ var lenencEdges = [][]byte{
 
 func c12Malformed(w *WireOps, r *vh.Rng, lab string) {
 	rep := w.rep
-	which := r.Intn(9)
+	which := r.Intn(11)
 	switch which {
+	case 9, 10: // Bind / Parse / Execute: one field at an edge value, a missing terminator or a cut
+		c12RandomExtended(w, r, lab)
 	case 0, 1: // MySQL length-encoded values
 		var in []byte
 		class := "edge-table"
@@ -716,7 +720,7 @@ func c12Malformed(w *WireOps, r *vh.Rng, lab string) {
 		noPanic(rep, "NewBindPacket", w.PgBind(lab+" NewBindPacket", in), lab, in)
 		full := frame('B', in)
 		noPanic(rep, "PacketHandler.bind-path", w.PgBindRewrite(lab+" bind path", full, [][]byte{{1, 2, 3}}), lab, full)
-	default: // bytea text
+	default: // bytea text (8)
 		var in []byte
 		class := ""
 		switch r.Intn(4) {
